@@ -3,7 +3,8 @@ C18, round 4 (T1b): do the three SGR consumers agree on EVERY parameter list, no
 
 * `parseSGR` (cell.go) and the embedded terminal's `sgr` (widgets/term): **yes, on every list, from every style** —
   `consumers_int_agree_all` (they are one loop over configurations that are equal as sets; panics included).
-* `NewStyledString` against them: **no** (`consumers_agree_all_full_fails`).  It agrees on the decidable class `agreeClass`
+* `NewStyledString` against them: **no** (`consumers_agree_all_full_fails`).  EXACTLY on the decidable set `agreeExact`
+  (`consumers_agree_iff`: evaluation at two probe styles decides agreement from every style).  It agrees on the syntactic class `agreeClass`
   (`consumers_agree_on_class`), which contains everything the three producers write (`producers_range_in_class`) and a
   good deal more (unknown codes, ignored sub-parameter counts, complete legacy forms anywhere in a list, a bare 38 at the
   very end); outside it the two readings differ in seven ways at the level of parameter lists, each with an evaluated witness
@@ -22,12 +23,13 @@ C18, round 4 (T1b): do the three SGR consumers agree on EVERY parameter list, no
   documentation cases (`corpus/C18/R4-*.ops`).
 -/
 import VaxisModel.Lemmas.SgrAgree
+import VaxisModel.Lemmas.SgrShape
 import VaxisModel.Props.C18
 import VaxisModel.Props.C18Bytes
 
 namespace VaxisModel.Props.C18Agree
 open VaxisModel VaxisModel.Gen VaxisModel.Model.Sgr VaxisModel.Lemmas.Sgr VaxisModel.Lemmas.SgrAgree
-open VaxisModel.Model.SgrBytes VaxisModel.Lemmas.SgrBytes
+open VaxisModel.Model.SgrBytes VaxisModel.Lemmas.SgrBytes VaxisModel.Lemmas.SgrShape
 
 /-- The two extracted configurations are the same sets of labels, `4:n` sub-labels and per-label sub-parameter counts
     (order of the `case` clauses irrelevant). -/
@@ -96,6 +98,59 @@ example : (match parseSGR {} [[38], [5]], ssSeq {} {} [[38], [5]] with
 -- in the class although malformed or unusual: both ignore / both stop at the end of the list
 example : [[[38]], [[1], [38]], [[38, 2]], [[38, 2, 1, 2]], [[38, 2, 0, 1, 2, 3, 4]], [[4, 9]], [[4, 9, 1]], [[6]], [[21]], [[0]],
     [[1], [38], [5], [200], [3]], [[48], [2], [1], [2], [3], [38], [5], [0]]].all agreeClass = true := by decide
+
+/-! ### The exact characterisation
+
+For a fixed list each consumer is a transformer of the style of a very simple shape — every colour field and the underline
+style kept or set to a constant, every attribute bit kept, set or cleared — or it panics whatever the style
+(`Lemmas/SgrShape.lean`: `intSgr_shaped`, `ssSeq_shaped`).  Two such transformers agree everywhere iff they agree on the two
+probes `⟨0,0,0,0,0⟩` and `⟨1,1,1,7,255⟩`.  So "agree from every style" is decidable by evaluation. -/
+
+/-- **`parseSGR` (= the emulator) and `NewStyledString` give the same result on `q` from EVERY style with an 8-bit attribute
+    mask (Go's `AttributeMask` is a `uint8`) if and only if `agreeExact q`** — the exact set of lists on which all three
+    consumers agree; `agreeClass` is a syntactic part of it (`agreeClass_sub_exact`), strictly smaller (`exact_not_class`). -/
+theorem consumers_agree_iff (q : Seq) :
+    (∀ s : Style, s.attr < 256 → parseSGR s q = ssSeq {} s q ∧ emuSgr s q = ssSeq {} s q) ↔ agreeExact q = true := by
+  constructor
+  · intro h
+    have h0 := (h probe0 (by decide)).1
+    have h1 := (h probe1 (by decide)).1
+    unfold agreeExact
+    rw [h0, h1]
+    have refl : ∀ r : Except Panic Style, sameRes r r = true := by
+      intro r; cases r <;> simp [sameRes]
+    rw [refl, refl]; rfl
+  · intro h s hs
+    have key : parseSGR s q = ssSeq {} s q := by
+      unfold agreeExact at h
+      rw [Bool.and_eq_true] at h
+      obtain ⟨h0, h1⟩ := h
+      rcases intSgr_shaped parseCfg q with ⟨F, hF, hf⟩ | hf <;> rcases ssSeq_shaped q with ⟨G, hG, hg⟩ | hg
+      · have e0 : parseSGR probe0 q = .ok (F probe0) := hf probe0
+        have e1 : parseSGR probe1 q = .ok (F probe1) := hf probe1
+        rw [e0, hg] at h0
+        rw [e1, hg] at h1
+        simp only [sameRes, beq_iff_eq] at h0 h1
+        show intSgr parseCfg s q = _
+        rw [hf, hg, shaped_ext F G hF hG h0 h1 s hs]
+      · have e0 : parseSGR probe0 q = .ok (F probe0) := hf probe0
+        rw [e0, hg] at h0
+        simp [sameRes] at h0
+      · have e0 : parseSGR probe0 q = .error .index := hf probe0
+        rw [e0, hg] at h0
+        simp [sameRes] at h0
+      · show intSgr parseCfg s q = _
+        rw [hf, hg]
+    exact ⟨key, (consumers_int_agree_all s q).symm.trans key⟩
+
+theorem agreeClass_sub_exact (q : Seq) (h : agreeClass q = true) : agreeExact q = true :=
+  (consumers_agree_iff q).mp (fun s _ => consumers_agree_on_class s q h)
+
+/-- The class is strictly smaller: here later parameters undo the difference (`38;5:1;7;25;27;39`). -/
+theorem exact_not_class : agreeExact [[38], [5, 1], [7], [25], [27], [39]] = true ∧
+    agreeClass [[38], [5, 1], [7], [25], [27], [39]] = false := by decide
+
+example : witnessTable.all (fun q => !agreeExact q) = true := by decide
 
 /-! ### Over strings -/
 
